@@ -53,10 +53,12 @@ impl InodeStore {
 
     pub(crate) fn alloc_inode(&mut self, path: &String) -> Result<Inode> {
         match self.path_mapping.get(path) {
-            // If the path is already in the mapping, return the reserved inode number.
-            Some(v) => Ok(*v),
+            // If the path is already in the mapping, return the reserved inode number, unless an
+            // unlinked node that the client still references owns that number: handing it out
+            // again would make a later forget of the old node hit the new one.
+            Some(v) if !self.deleted.contains_key(v) => Ok(*v),
             // Or allocate a new inode number.
-            None => self.alloc_unique_inode(),
+            _ => self.alloc_unique_inode(),
         }
     }
 
